@@ -1,11 +1,13 @@
 import CallbagModel.Inv.XViols
 import CallbagModel.Inv.Combine
+import CallbagModel.Inv.ComposeFull
 import CallbagModel.Inv.ComposeInst
 import CallbagModel.Inv.ConcatFull
 import CallbagModel.Inv.FlattenFull
 import CallbagModel.Inv.ForEachFull
 import CallbagModel.Inv.FromIterFull
 import CallbagModel.Inv.MergeFull
+import CallbagModel.Inv.MonSound
 import CallbagModel.Inv.RelayFull
 import CallbagModel.Inv.ShareFull
 import CallbagModel.Inv.ShareWeak
@@ -65,6 +67,41 @@ theorem C05_merge {α : Type} (n : Nat) :
 theorem C05_share_partial {α : Type} :
     ∀ s, SReachR (Share.machine α) noNestedFanout s → SafeFor 5 s :=
   fun s hs => (ShareFull.share_safe_partial s hs).safeFor 5
+/-- pipelines `pipe!(source, op₁, …, opₙ)` of map / filter / scan / skip / take of ANY length, as operators against every conformant
+upstream and sink — C05 in FULL (both monitor layers).  `FullStage` (Inv/ComposeFull.lean): pipeable, one upstream and one sink, no
+orphan at top level, and DIRECT error paths (an `Error` arriving at either end is passed on by the handler that receives it, with
+nothing in between); closed under `compose`.  A general "Safe M₁ → Safe M₂ → Safe (compose M₁ M₂)" is FALSE (two executions at the
+end of Inv/ComposeFull.lean: a stage that delivers one more datum before relaying an upstream Error, over a `take` that completes on
+it; a stage that pulls before relaying its sink's Error, under a `take` that completes on the answer). -/
+theorem C05_pipeline {S1 L1 S2 L2 α β γ : Type} {M1 : Machine S1 L1 α β} {M2 : Machine S2 L2 β γ}
+    (h1 : ComposeFull.FullStage M1) (h2 : ComposeFull.FullStage M2) : ∀ s, SReach (compose M1 M2) s → SafeFor 5 s :=
+  fun s hs => (ComposeFull.compose_safe h1 h2 s hs).1.safeFor 5
+
+/-- the stages (and every composition of stages: `FullStage.compose`) -/
+theorem C05_full_stages {σ α β : Type} (k : Relay.Kind σ α β) (hk : k.slotted = false → ∀ s a, (k.xfer s a).2 ≠ none) (max : Nat) :
+    ComposeFull.FullStage (Relay.machine k) ∧ ComposeFull.FullStage (Take.machine α max) :=
+  ⟨ComposeFull.Relay.fullStage k hk, ComposeFull.Take.fullStage max⟩
+
+/-- closed pipelines `pipe!(head, stages…, for_each(f))`, head = from_iter / concat! / flatten: C05 in full -/
+theorem C05_closed_pipeline {S1 L1 S2 L2 α β γ : Type} {Msrc : Machine S1 L1 α β} {Mmid : Machine S2 L2 β γ}
+    (hsrc : UpSide Msrc) (hmid : Pipeable Mmid) :
+    ∀ s, SReach (compose (compose Msrc Mmid) (ForEach.machine γ)) s → SafeFor 5 s :=
+  fun s hs => (ComposeFull.closed_pipeline_full hsrc hmid s hs).1.safeFor 5
+
+/-- `pipe!(from_iter(it), stages…)` as a source, against every conformant sink: C05 in full -/
+theorem C05_fromIter_pipeline {ι α α' β S L : Type} (next : ι → Option (α × ι)) (it0 : ι) {Mmid : Machine S L α β}
+    (hmid : Pipeable Mmid) : ∀ s, SReach (compose (FromIter.machine α' next it0) Mmid) s → SafeFor 5 s :=
+  fun s hs => (ComposeFull.fromIter_pipeline_full next it0 hmid s hs).1.safeFor 5
+
+/-- the oracle that judges traces recorded from the real crate IS the monitor of these theorems: on every model execution the
+machine-free monitor `monRun` (Mon.lean), folded over the boundary trace alone, computes exactly the ghost carried by the configuration
+(`Inv/MonSound.lean`: `monRun_sound`), so `SafeFor 5` can be read off the trace -/
+theorem C05_oracle_is_the_monitor {St Loc α β : Type} (M : Machine St Loc α β) :
+    ∀ s, SReach M s →
+      (SafeFor 5 s ↔ (∀ v ∈ (monRun M.shape s.tr.reverse).g.viols, v.prop ≠ 5) ∧
+        (5 = 17 → (monRun M.shape s.tr.reverse).panicked = false)) :=
+  safeFor_iff_monRun M 5
+
 /- `combine!`: C05 is FALSE for this operator (known finding KF1: an upstream `Error` is counted as a completion; the sink never
 receives it). There is no history class on which the property says anything and holds, hence no `_partial` theorem; the witness is
 `C05_combine_counterexample` in `Thm/Counterexamples.lean`. -/
